@@ -235,6 +235,74 @@ def exact(call, d, args, kwargs):
     return True
 
 
+# ---- second oracle for the arguments ``exact`` leaves out: the comparison exactly as the
+# library documents it (one Python expression per callable, transcribed here from the pinned
+# documentation, not imported), an exception of the kinds the statement calls "not defined"
+# counting as "does not satisfy".  It decides the ill-typed corners (``has_factor([])`` on a
+# string item is string formatting, whose result is never == 0) that case analysis leaves open.
+def _kc(d, keys):
+    return sum(k in d.keys() for k in keys)
+
+
+_PY = {
+    "equal_to": lambda d, value: d == value,
+    "not_equal_to": lambda d, value: d != value,
+    "less_than": lambda d, value: d < value,
+    "greater_than": lambda d, value: d > value,
+    "less_than_or_equal_to": lambda d, value: d <= value,
+    "greater_than_or_equal_to": lambda d, value: d >= value,
+    "in_": lambda d, value: d in value,
+    "not_in": lambda d, value: d not in value,
+    "in_range": lambda d, lower, upper: d in range(lower, upper),
+    "not_in_range": lambda d, lower, upper: d not in range(lower, upper),
+    "factor_of": lambda d, value: value % d == 0,
+    "has_factor": lambda d, value: d % value == 0,
+    "equal_to_approx": lambda d, value, tolerance=1e-8: abs(d - value) < tolerance,
+    "truthy": lambda d: not not d,
+    "falsy": lambda d: not d,
+    "null": lambda d: True,
+    "is_instance": lambda d, *classes: isinstance(d, classes),
+    "keys_contain": lambda d, key: key in d.keys(),
+    "keys_contain_any_of": lambda d, *keys: any(k in d.keys() for k in keys),   # (left to right, stops early)
+    "keys_contain_all_of": lambda d, *keys: all(k in d.keys() for k in keys),
+    "keys_contain_N_of": lambda d, N, keys: _kc(d, keys) == N,
+    "keys_contain_at_least_N_of": lambda d, N, keys: _kc(d, keys) >= N,
+    "keys_contain_at_most_N_of": lambda d, N, keys: _kc(d, keys) <= N,
+    "keys_contain_one_of": lambda d, *keys: _kc(d, keys) == 1,
+    "keys_contain_at_least_one_of": lambda d, keys: _kc(d, keys) >= 1,
+    "keys_contain_at_most_one_of": lambda d, keys: _kc(d, keys) <= 1,
+    "keys_equal_to": lambda d, *keys: set(d.keys()) == set(keys),
+    "keys_is_instance": lambda d, *classes: all(isinstance(i, classes) for i in d.keys()),
+    "items_contain": lambda d, **items: all(k in d and not (d[k] != v) for k, v in items.items()),
+    "allowed_keys": lambda d, *keys: not (set(d.keys()) - set(keys)),
+    "required_keys": lambda d, *keys: not (set(keys) - set(d.keys())),
+    "forbidden_keys": lambda d, *keys: not (set(keys) & set(d.keys())),
+}
+_UNDEFINED = (TypeError, AttributeError, ZeroDivisionError, ValueError)
+
+
+def pythonic(call, d, args, kwargs):
+    """True / False, or None when this oracle does not decide (an exception of another kind, a
+    non-boolean outcome)."""
+    call = T.ALIASES.get(call, call)
+    try:
+        r = _PY[call](d, *args, **dict(kwargs))
+    except _UNDEFINED:
+        return False
+    except Exception:
+        return None
+    return r if isinstance(r, bool) else None
+
+
+def pythonic_holds(t, key, value):
+    _, cls, call, args, kwargs = t
+    d = value if T.KIND[cls] == "value" else key
+    p = prep(T.PREP[cls], d)
+    if p is UNDEF:
+        return False
+    return pythonic(call, p, args, kwargs)
+
+
 def prep(p, d):
     if p is None:
         return d
